@@ -112,11 +112,14 @@ pub struct IfaceOpts {
     /// imported-dependency component type re-encodes such an alias structurally and panics
     /// when the definition mentions a resource that is not in scope).
     pub avoid_alias_of_used: bool,
+    /// Draw type names from a small pool, so that different interfaces define types of the
+    /// same name and `use` has to rename them.
+    pub reuse_names: bool,
 }
 
 impl Default for IfaceOpts {
     fn default() -> Self {
-        IfaceOpts { max_types: 4, max_funcs: 3, resources: true, depth: 2, avoid_alias_of_used: true }
+        IfaceOpts { max_types: 4, max_funcs: 3, resources: true, depth: 2, avoid_alias_of_used: true, reuse_names: false }
     }
 }
 
@@ -252,10 +255,14 @@ pub fn gen_iface(
             }
             // a type name may only be brought in once under a given local name
             let (path, source_id, tname, is_res) = usable[i].clone();
-            let as_name = if rng.chance(1, 3) { Some(names.fresh("ren")) } else { None };
-            let local = as_name.clone().unwrap_or_else(|| tname.clone());
+            let mut as_name = if rng.chance(1, 3) { Some(names.fresh("ren")) } else { None };
+            let mut local = as_name.clone().unwrap_or_else(|| tname.clone());
             if scope.values.contains(&local) || scope.resources.contains(&local) {
-                continue;
+                if !opts.reuse_names {
+                    continue;
+                }
+                local = names.fresh("ren");
+                as_name = Some(local.clone());
             }
             taken.push(i);
             if is_res {
@@ -276,14 +283,21 @@ pub fn gen_iface(
                 }
             }
         }
-        let tname = names.fresh(match def {
+        let prefix = match def {
             TypeDef::Record(_) => "rec",
             TypeDef::Variant(_) => "var",
             TypeDef::Enum(_) => "enm",
             TypeDef::Flags(_) => "flg",
             TypeDef::Alias(_) => "ali",
             TypeDef::Resource { .. } => "res",
-        });
+        };
+        let pooled = if opts.reuse_names {
+            let start = rng.below(3);
+            (0..3).map(|k| format!("{prefix}-p{}", (start + k) % 3)).find(|n| !scope.values.contains(n) && !scope.resources.contains(n))
+        } else {
+            None
+        };
+        let tname = pooled.unwrap_or_else(|| names.fresh(prefix));
         if matches!(def, TypeDef::Resource { .. }) {
             scope.resources.push(tname.clone());
         } else {
